@@ -372,6 +372,9 @@ scn.register(globals(), {"C07", "C02", "C03"}, ["par_retry", "par_catch"],
 def _retry_chain(which, j1: int, j2: int, m: int, via_catch: bool, c0: int, c1: int, c2: int):
     from vf import s2
     m = pick([0, 1, 2], m)
+    # the failure counts only steer the harness's workers: made concrete by explicit forks, so that the engine runs
+    # outside the tracer (fast mode) and the solver closes the (j1, j2, schedule) space
+    j1 = stubs.cint(j1, 0, 3); j2 = stubs.cint(j2, 0, 3); via_catch = stubs.cbool(via_catch)
     retry = [{"ErrorEquals": ["Boom"], "IntervalSeconds": 1, "MaxAttempts": m, "BackoffRate": 2.0}]
     t1 = scn.task("f1", ResultPath="$.t1", Next="T2", Retry=retry)
     if via_catch:
@@ -427,7 +430,7 @@ def _retry_chain(which, j1: int, j2: int, m: int, via_catch: bool, c0: int, c1: 
             if not t1_ok and (got[1].get("t1") or {}).get("Error") != "Boom":
                 return "C07 caught error output missing: %r" % (got,)
         return ""
-    return s2.run_scenario(asl, {"x": 1}, [c0, c1, c2], {"f1": w1, "f2": w2}, which, "STANDARD", expect, extra_check=chk2, max_steps=160)
+    return s2.run_scenario(asl, {"x": 1}, [c0, c1, c2], {"f1": w1, "f2": w2}, which, "STANDARD", expect, extra_check=chk2, max_steps=160, fast=True)
 
 
 def _make_chain(m, vc):
